@@ -84,6 +84,11 @@ func (p *C09) Gen(seed uint64, i int, tier string) *scen.Scenario {
 		sc.Setup = append(sc.Setup, op)
 	}
 	adv := &c02Gen{r: r}
+	if r.Chance(1, 3) {
+		// values that log from inside their String method, on a logger of their own
+		adv.relog = c02NestedLogger
+		sc.Setup = append(sc.Setup, scen.Op{Op: "new_root", R: c02NestedLogger, Name: "nested", Named: true, Opts: append([]scen.Op{{Kind: "writer", W: c02NestedWriter}, {Kind: "errwriter", W: c02NestedWriter}, {Kind: "level", Lvl: model.Always}}, formatOpt()...)})
+	}
 	vals := func(n int) []scen.Arg {
 		if r.Chance(1, 3) {
 			// any attribute the API accepts: every value kind, reserved key names ("time", "level", ...), malformed lists
@@ -403,6 +408,9 @@ func (p *C09) WellFormed(sc *scen.Scenario) bool {
 	if sc.Note == "twin" {
 		return c09TwinWellFormed(sc)
 	}
+	if relogTokens(sc) == nil {
+		return false
+	}
 	var pr *scen.Op
 	n := 0
 	for i := range sc.Setup {
@@ -466,13 +474,23 @@ func (p *C09) Check(sc *scen.Scenario, run *orch.Run, env *orch.Env) []orch.Viol
 		return append(out, c09TwinCheck(sc, run)...)
 	}
 	ops := indexOps(run)
+	// records issued from inside a value's String method carry the clock's time: they are not the probe's bytes
+	own := func(ws []scen.Event) []scen.Event {
+		var out []scen.Event
+		for _, w := range ws {
+			if w.W != c02NestedWriter {
+				out = append(out, w)
+			}
+		}
+		return out
+	}
 	var pristine []scen.Event
 	var probe *scen.Op
 	for i := range sc.Setup {
 		if sc.Setup[i].Probe {
 			probe = &sc.Setup[i]
 			if o := ops[opKey("setup", 0, i+1)]; o != nil {
-				pristine = o.Writes
+				pristine = own(o.Writes)
 				if o.Panic != nil {
 					out = append(out, orch.Violation{Rule: "C09.panic", Witness: "pristine", Detail: o.Panic.S})
 				}
@@ -504,6 +522,7 @@ func (p *C09) Check(sc *scen.Scenario, run *orch.Run, env *orch.Env) []orch.Viol
 			out = append(out, orch.Violation{Rule: "C09.panic", Witness: "after-history", Detail: o.Panic.S})
 			continue
 		}
+		o.Writes = own(o.Writes)
 		if len(o.Writes) != len(pristine) {
 			out = append(out, orch.Violation{Rule: "C09.count", Witness: "writes", Detail: fmt.Sprintf("the probe caused %d writes in the pristine world and %d after the history", len(pristine), len(o.Writes))})
 			continue
